@@ -12,7 +12,7 @@ from sim.engines import render as R
 
 
 def default_params(tier):
-    p = progmod.default_params(tier, forbid=["only", "provide", "inject_default"])
+    p = progmod.default_params(tier, forbid=["provide", "inject_default"])
     p["budget_mult"] = 5000
     p["py_entry"] = 6
     p["max_prefix"] = 3
